@@ -15,6 +15,7 @@ import Gzx.Properties.C08
 import Gzx.Model.RS
 import Gzx.Proofs.DMCompose
 import Gzx.Proofs.DMLookAhead
+import Gzx.Proofs.DMEdifactEOD
 namespace Gzx.Properties.C02
 open Gzx Gzx.DMHighLevel
 
@@ -197,6 +198,50 @@ theorem dm_encoder_invariant_c40 (text : Bool) (syms : List SymbolInfo) (la : Lo
   obtain ⟨a', h1, _, _, _, h5, _, h7, h8⟩ := c40_step_post hbytes hL hle hm hnew h
   exact ⟨a', h1, h5, h7, h8⟩
 
+/-- `edifact_segment_inv`: if the decoder is in ASCII state after `cw0`, then after `cw0 ++ [240] ++ quadruples` of
+    EDIFACT-native characters `chars` (any multiple of four)
+      * followed by at most two codewords it has appended `chars` and reads those codewords in ASCII (the "two or
+        fewer bytes left" rule — what the encoder relies on when it omits the unlatch);
+      * followed by the one-codeword unlatch 124 it is back in ASCII provided AT LEAST TWO more codewords follow;
+      * followed by three characters + unlatch (one full group) it is back in ASCII whatever follows. -/
+theorem edifact_segment_inv (T : Tables) (cw0 : List Nat) (a : Acc) (h : DecodesTo T cw0 a) (hp : a.pend = 0)
+    (k : Nat) (chars : List Nat) (hl : chars.length = 4 * k) (hn : ∀ c ∈ chars, isNativeEDIFACT c = true) :
+    DecK T (cw0 ++ [240] ++ (writeQuads (chars.map ediVal)).1) (a.pushAll chars) 2 ∧
+    DecFrom T 2 (cw0 ++ [240] ++ (writeQuads (chars.map ediVal)).1 ++ edifactPack [31]) (a.pushAll chars) ∧
+    (∀ c1 c2 c3, isNativeEDIFACT c1 = true → isNativeEDIFACT c2 = true → isNativeEDIFACT c3 = true →
+      DecFrom T 0 (cw0 ++ [240] ++ (writeQuads (chars.map ediVal)).1 ++
+        edifactPack [ediVal c1, ediVal c2, ediVal c3, 31]) ((a.pushAll chars).pushAll [c1, c2, c3])) :=
+  ⟨edifact_segment_open h hp k chars hl hn, edifact_closed1 h hp k chars hl hn,
+   fun c1 c2 c3 h1 h2 h3 => edifact_closed4 h hp k chars hl hn c1 c2 c3 h1 h2 h3⟩
+
+example : (writeQuads ([65, 66, 67, 68].map ediVal)).1 = [4, 32, 196] ∧ edifactPack [31] = [124] := by decide
+example : decodeText refTables [240, 4, 32, 196, 124, 142, 129, 56] = .ok [65, 66, 67, 68, 49, 50] := by decide
+/-- with only ONE codeword behind it the unlatch 124 is read as the ASCII character '{' -/
+example : decodeText refTables [240, 4, 32, 196, 124, 142] = .ok [65, 66, 67, 68, 123, 49, 50] := by decide
+
+/-- `dm_encoder_invariant` (EDIFACT, whole call — `EdifactEncoder.encode` with `edifactHandleEOD` after the repair
+    7bca761): for EVERY look-ahead oracle and every symbol table, a call started right after the latch 240 either
+    fails or ends in ASCII mode with exactly the characters consumed so far decoded (`a'`), in one of five states
+    (`EdiPost`):
+      closed   unlatch inside full codewords (two or three buffered characters + 31): invariant, whatever follows;
+      tail     NO unlatch, the symbol has `k ≤ 2` codewords left and the rest of the message needs at most `k`
+               codewords in ASCII (the condition the repair made exact: extended characters count twice);
+      rewound  end of message, one or two characters buffered, fewer than three codewords left: nothing written for
+               them, position rewound, symbol forgotten — they are re-encoded in ASCII and the symbol the encoder
+               had picked for them leaves at most two codewords behind the last quadruple;
+      endpad   end of message, unlatch written in `3 - j` codewords (`j ≤ 2`) and the symbol has at least `j` more;
+      mid      the look-ahead left EDIFACT in mid-stream and the one-codeword unlatch 124 was written: it is read as
+               unlatch iff at least two more codewords follow in the FINAL symbol.
+    Only `mid` (and, through symbol re-selection, `rewound`) refers to what happens later; this is the global argument
+    that keeps EDIFACT out of the composed round trip (see `dm_roundtrip_edifact_needs_symbol_gap`). -/
+theorem dm_encoder_invariant_edifact (T : Tables) (syms : List SymbolInfo) (la : LookAhead) (c c' : Ctx) (a : Acc)
+    (hL : LatchedM T EDIFACT 240 la c a) (hle : c.pos ≤ c.total) (hnew : c.newEnc = none)
+    (h : edifactEncode syms la c = .ok c') :
+    ∃ a', a'.trailer = a.trailer ∧ c.pos ≤ c'.pos ∧ c'.pos ≤ c'.total ∧ c'.newEnc = some ASCII ∧
+      a'.rev.reverse = c'.msg.take c'.pos ∧ a'.pend = 0 ∧ EdiPost T syms c c' a' := by
+  obtain ⟨a', h1, _, _, _, h5, h6, h7, h8, h9, h10⟩ := edifact_step_post hL hle hnew h
+  exact ⟨a', h1, h5, h6, h7, h8, h9, h10⟩
+
 /-- in a tail state the ASCII encoder (oracle staying in ASCII) uses up the free codewords: the tail shrinks -/
 theorem dm_encoder_invariant_tail (T : Tables) (la : LookAhead) (c c' : Ctx) (a : Acc) (k : Nat)
     (hbytes : ∀ x ∈ c.msg, x < 256) (hT : Tail T c a k) (hm : c.hasMore = true) (hle : c.pos ≤ c.total)
@@ -334,6 +379,42 @@ theorem dm_roundtrip_needs_x12_tail :
   ⟨fun _ pos mode => if mode = ASCII then (if pos = 0 then X12 else ASCII)
       else if mode = X12 then (if pos = 3 then ASCII else X12) else ASCII,
    [238, 6, 106, 235, 106, 129, 161, 56], by decide, by decide⟩
+
+/-- an oracle that enters EDIFACT at the start and leaves it after the first quadruple -/
+def laEdifactOnce : LookAhead := fun _ pos mode =>
+  if mode = ASCII then (if pos = 0 then EDIFACT else ASCII)
+  else if mode = EDIFACT then (if pos = 4 then ASCII else EDIFACT) else mode
+
+/-- WITH EDIFACT THE ROUND TRIP IS FALSE FOR SOME SYMBOL TABLES: two admissible symbols whose capacities differ by
+    one (5 and 6 codewords; ISO/IEC 16022 has no such pair).  "ABCD12": one quadruple, the oracle leaves EDIFACT, one
+    codeword is free but "12" is counted as two → unlatch 124 written → the digit pair makes the symbol grow to 6
+    codewords, exactly ONE behind the unlatch → the decoder reads 124 as '{'.  So any theorem that admits EDIFACT
+    needs a hypothesis on the symbol table (consecutive capacities differ by at least 2, and — for `rewound` —
+    capacities ascend) in addition to oracle conditions. -/
+theorem dm_roundtrip_edifact_needs_symbol_gap :
+    ∃ (syms : List SymbolInfo) (cw : List Nat), encodeHL syms laEdifactOnce [65, 66, 67, 68, 49, 50] {} = .ok cw ∧
+      decodeText refTables cw ≠ .ok [65, 66, 67, 68, 49, 50] :=
+  ⟨[⟨false, 5, 7, 10, 10, 1⟩, ⟨false, 6, 7, 10, 10, 1⟩, ⟨false, 1558, 620, 22, 22, 36⟩],
+   [240, 4, 32, 196, 124, 142], by decide, by decide⟩
+
+/-- the same message and oracle with capacities 5, 8 (as in ISO/IEC 16022): two codewords follow, it decodes -/
+example : encodeHL [⟨false, 5, 7, 10, 10, 1⟩, ⟨false, 8, 10, 12, 12, 1⟩] laEdifactOnce [65, 66, 67, 68, 49, 50] {} =
+    .ok [240, 4, 32, 196, 124, 142, 129, 56] := by decide
+
+/-- after an EDIFACT segment that ends WITHOUT unlatch, up to TWO characters are left to the ASCII encoder: an
+    oracle that latches C40 there (allowed by `LaTailAscii`, which only speaks about ONE remaining character) breaks
+    the round trip — "ABCDab" in a 6-codeword symbol.  With EDIFACT, `LaTailAscii` has to cover two remaining
+    characters. -/
+theorem dm_roundtrip_edifact_needs_tail2 :
+    ∃ (la : LookAhead) (cw : List Nat), LaTailAscii la [65, 66, 67, 68, 97, 98] 6 ∧
+      encodeHL [⟨false, 6, 7, 10, 10, 1⟩, ⟨false, 12, 12, 14, 14, 1⟩] la [65, 66, 67, 68, 97, 98] {} = .ok cw ∧
+      decodeText refTables cw ≠ .ok [65, 66, 67, 68, 97, 98] :=
+  ⟨fun _ pos mode => if mode = ASCII then (if pos = 0 then EDIFACT else if pos = 4 then C40 else ASCII)
+      else if mode = EDIFACT then (if pos = 4 then ASCII else EDIFACT) else mode,
+   [240, 4, 32, 196, 230, 12, 169, 254, 99, 129, 251, 147],
+   by intro p hp; have : p = 5 := by omega
+      subst this; decide,
+   by decide, by decide⟩
 
 /-- `dm_roundtrip`, ASCII + Base-256 part. -/
 theorem dm_roundtrip_ascii_base256_partial (T : Tables) (syms : List SymbolInfo) (la : LookAhead)
